@@ -5,8 +5,16 @@ from six.moves.urllib.parse import unquote
 from trashcli.parse_trashinfo.parser_error import ParseError
 
 
+def unquote_path(quoted):
+    try:
+        # bytes that are not valid UTF-8 must come back as the same bytes
+        return unquote(quoted, errors='surrogateescape')
+    except TypeError:  # Python 2: unquote() already works on bytes
+        return unquote(quoted)
+
+
 def parse_path(contents):
     for line in contents.split('\n'):
         if line.startswith('Path='):
-            return unquote(line[len('Path='):])
+            return unquote_path(line[len('Path='):])
     raise ParseError('Unable to parse Path')
